@@ -345,7 +345,7 @@ public:
   //! You can check whether a section has a registered `SectionNode` by using `BaseBuilder::has_registered_section_node()`.
   ASMJIT_API Error section_node_of(Out<SectionNode*> out, uint32_t section_id);
 
-  ASMJIT_API Error section(Section* ASMJIT_NONNULL(section)) override;
+  ASMJIT_API Error section(Section* section) override;
 
   //! Returns whether the section links of active section nodes are dirty. You can update these links by calling
   //! `update_section_links()` in such case.
